@@ -22,7 +22,7 @@ func init() {
 			"R1: for every printable ASCII character that regexp.QuoteMeta escapes, the escape table either maps it to backslash+itself or it is one of the three mask characters handled separately. R2: data flow order escape -> inner-pipe escape -> * and ^ expansion -> anchors. " +
 			"R3 (partition): the inner-pipe escaping acts on regex[P:len-1] between the untouched pieces regex[:P] and regex[len-1:], P the length of the leading mask. R4: * and ^ are expanded with ReplaceAll to the documented constants; || | and trailing | map to the start/end constants. " +
 			"R5: (?i) is prepended exactly when match-case is off. R6: the compiled text derives from the rule's pattern field. R7: every index/slice of the pattern compiler is in range (bounds prover, shared with C12). " +
-			"R8: the trailing '/*' rewrite removes exactly that suffix, and the constructor stores nothing else into the pattern than the parsed text. R3 (coverage): the inner-pipe escaping is skipped only in cases refuted against 'a pipe at P <= q <= len-2' by linear arithmetic over len/Index/LastIndex or guarded by !Contains. R9: the mask constants and their expansions have the documented meaning (Go's regexp on the constant text, inside the checker). R10: the pattern check answers true only if the compiled expression matched or preparePattern reported the lone-* expression. R11: the scan for the options delimiter starts at len(text)-2. R9 also checks the start-of-URL constant against a table of host prefixes. R9 rows for every character a DNS label can have (underscore, hyphen, digits). R10 is judged with the compile routine expanded into the pattern check, whatever the routine returns. R12 imports C05.R3 (the pre-filter literal comes from the rule's own pattern, lower-cased). Single-pass forms are read too: the anchors cut off first and one replacer for the pipes and the masks (or one table for everything); R3 then judges every alternative of start + pass(text) + end with its condition (two characters cut under a leading ||, one under a single leading pipe, none otherwise; $ exactly where one character is cut at the end).",
+			"R8: the trailing '/*' rewrite removes exactly that suffix, and the constructor stores nothing else into the pattern than the parsed text. R3 (coverage): the inner-pipe escaping is skipped only in cases refuted against 'a pipe at P <= q <= len-2' by linear arithmetic over len/Index/LastIndex or guarded by !Contains. R9: the mask constants and their expansions have the documented meaning (Go's regexp on the constant text, inside the checker). R10: the pattern check answers true only if the compiled expression matched or preparePattern reported the lone-* expression. R11: the scan for the options delimiter starts at len(text)-2. R9 also checks the start-of-URL constant against a table of host prefixes. R9 rows for every character a DNS label can have (underscore, hyphen, digits). R10 is judged with the compile routine expanded into the pattern check, whatever the routine returns. R12 imports C05.R3 (the pre-filter literal comes from the rule's own pattern, lower-cased). Single-pass forms are read too: the anchors cut off first and one replacer for the pipes and the masks (or one table for everything); R3 then judges every alternative of start + pass(text) + end with its condition (two characters cut under a leading ||, one under a single leading pipe, none otherwise; $ exactly where one character is cut at the end). R13: what parseRuleText hands on as the pattern is the rule text itself or the rule text behind exactly the two characters of the exception marker (a slice at len(\"@@\"), strings.TrimPrefix or strings.CutPrefix with the marker): a cutset-based trim would also eat the first characters of a pattern that begins with '@'.",
 		Trusted:     []string{"regexp.QuoteMeta defines which characters RE2 treats specially"},
 		Assumptions: []string{"language equality of the expansion constants with the documented mask semantics is a statement about all strings per pattern (automata equivalence) and is outside static reach: a change inside RegexSeparator or RegexStartURL is invisible to this check"},
 	})
